@@ -42,6 +42,7 @@ class RefChecker:
         self.ex = ex
         self.R = Refs(ex, concretize)
         self.R.follow_holes = True
+        self.R.holes_neutral = True
         self.fuel = fuel
         self.it = it
 
@@ -51,30 +52,19 @@ class RefChecker:
         if self.fuel < 0:
             raise RefUnknown("reference out of fuel")
 
-    def view(self, t):
-        """(ctor, adt) of a term, following solved holes."""
-        while True:
-            vs = self.R.views(t)
-            if len(vs) != 1:
-                if isinstance(t, InputTerm) or len(vs) == 0:
-                    raise InternalError("reference checker needs a concrete constructor")
-                # a merged value: decide which alternative (forks)
-                i = self.ex.decide([g for g, _, _ in vs])
-                vs = [vs[i]]
-            _, ct, adt = vs[0]
-            if ct != "Unifier":
-                return ct, adt
-            cell, shift = adt.fields
-            if isinstance(cell, Union):
-                raise InternalError("union cell")
-            content = self.ex.cell_get(cell)
-            if isinstance(content, Union):
-                i = self.ex.decide([g for g, _ in content.alts])
-                content = content.alts[i][1]
-            if content.variant != "Some":
-                raise RefUnknown("unresolved hole")
-            self.tick()
-            _, t = self.R.shift(content.fields[0], 0, shift)
+    def view(self, t, holes_ok=False):
+        """(ctor, adt) of a term, following solved holes.  Unsolved holes are heads of their own
+        when `holes_ok`, otherwise the case is outside what the reference can judge."""
+        vs = self.R.views(t)
+        if len(vs) != 1:
+            if isinstance(t, InputTerm) or len(vs) == 0:
+                raise InternalError("reference checker needs a concrete constructor")
+            i = self.ex.decide([g for g, _, _ in vs])
+            vs = [vs[i]]
+        _, ct, adt = vs[0]
+        if ct == "Unifier" and not holes_ok:
+            raise RefUnknown("unresolved hole")
+        return ct, adt
 
     def pin(self, idx, n):
         """Concrete value of an index below n, or None if it is >= n."""
@@ -108,9 +98,9 @@ class RefChecker:
 
     def whnf(self, t, ctx):
         self.tick()
-        ct, adt = self.view(t)
+        ct, adt = self.view(t, holes_ok=True)
         f = adt.fields
-        if ct in ("Type", "Lambda", "Pi", "Integer", "IntegerLiteral", "Boolean", "True", "False"):
+        if ct in ("Type", "Lambda", "Pi", "Integer", "IntegerLiteral", "Boolean", "True", "False", "Unifier"):
             return self.rebuild(t, ct, adt)
         if ct == "Variable":
             i = self.pin(f[1], len(ctx))
@@ -122,7 +112,7 @@ class RefChecker:
             return self.whnf(self.up(e.defn, len(ctx) - e.level), ctx)
         if ct == "Application":
             wf = self.whnf(f[0], ctx)
-            c2, a2 = self.view(wf)
+            c2, a2 = self.view(wf, True)
             if c2 == "Lambda":
                 return self.whnf(self.R.subst(a2.fields[3], 0, f[1], 0), ctx)
             return T.mk("Application", [wf, f[1]])
@@ -131,13 +121,13 @@ class RefChecker:
             return self.whnf(self.close_group(f[1], defs), ctx)
         if ct == "Negation":
             w = self.whnf(f[0], ctx)
-            c2, a2 = self.view(w)
+            c2, a2 = self.view(w, True)
             if c2 == "IntegerLiteral":
                 return T.lit(-a2.fields[0].v)
             return T.mk(ct, [w])
         if ct == "If":
             w = self.whnf(f[0], ctx)
-            c2, _ = self.view(w)
+            c2, _ = self.view(w, True)
             if c2 == "True":
                 return self.whnf(f[1], ctx)
             if c2 == "False":
@@ -146,8 +136,8 @@ class RefChecker:
         # binary operators
         l = self.whnf(f[0], ctx)
         r = self.whnf(f[1], ctx)
-        cl, al = self.view(l)
-        cr, ar = self.view(r)
+        cl, al = self.view(l, True)
+        cr, ar = self.view(r, True)
         if cl == "IntegerLiteral" and cr == "IntegerLiteral":
             a, b = al.fields[0].v, ar.fields[0].v
             if ct == "Sum":
@@ -172,7 +162,7 @@ class RefChecker:
         """The term itself with its head made explicit (solved holes followed)."""
         if isinstance(t, InputTerm):
             return t
-        if isinstance(t, Struct) and isinstance(t.fields["variant"], Adt) and t.fields["variant"].variant != "Unifier":
+        if isinstance(t, Struct) and isinstance(t.fields["variant"], Adt) and t.fields["variant"] is adt:
             return t
         return Struct(T.TERM, {"source_range": T.none(), "variant": adt})
 
@@ -183,11 +173,16 @@ class RefChecker:
         self.tick()
         wa = self.whnf(a, ctx)
         wb = self.whnf(b, ctx)
-        ca, xa = self.view(wa)
-        cb, xb = self.view(wb)
+        ca, xa = self.view(wa, True)
+        cb, xb = self.view(wb, True)
         if ca != cb:
             return False
         fa, fb = xa.fields, xb.fields
+        if ca == "Unifier":
+            if fa[0] is not fb[0]:
+                return False
+            e = z_eq(fa[1], fb[1])
+            return e if isinstance(e, bool) else self.ex.branch(e)
         if ca == "Variable":
             e = z_eq(fa[1], fb[1])
             return e if isinstance(e, bool) else self.ex.branch(e)
